@@ -106,6 +106,9 @@ class AddCheck:
     def obs(self, o):
         raise NotImplementedError
 
+    def obs_case(self, case, o):
+        return self.obs(o)
+
     def violation(self, case, io, claim, before):
         return None
 
@@ -132,7 +135,7 @@ class AddCheck:
         for i in range(0, len(cases), self.chunk):
             part = cases[i:i + self.chunk]
             res = engine.add_cases(part)
-            bad_idx = [j for j, (io, mo) in enumerate(res) if self.obs(io) != self.obs(mo)]
+            bad_idx = [j for j, (io, mo) in enumerate(res) if self.obs_case(part[j], io) != self.obs_case(part[j], mo)]
             claims = {}
             if (bad_idx or force_oracle) and self.needs_claims:
                 idx = list(range(len(part))) if force_oracle else bad_idx
@@ -145,15 +148,15 @@ class AddCheck:
                 if self.nontrivial(c, io, before):
                     sigs.add(self.signature(c, io))
                 if len(samples) < 3 and self.nontrivial(c, io, before):
-                    samples.append({'ro': c['ro'], 'msg': c['msg'], 'impl_obs': self.obs(io)})
+                    samples.append({'ro': c['ro'], 'msg': c['msg'], 'impl_obs': self.obs_case(c, io)})
                 if j in bad_idx or force_oracle:
                     what = self.violation(c, io, claims.get(j), before)
                     if what:
                         violations.append({'what': what, 'case': {'kind': 'add', 'ro': c['ro'], 'msg': c['msg'], 'meta': c.get('meta')},
-                                           'impl': self.obs(io), 'expected': self.obs(mo)})
+                                           'impl': self.obs_case(c, io), 'expected': self.obs_case(c, mo)})
                     if j in bad_idx:
                         disagreements.append({'case': {'kind': 'add', 'ro': c['ro'], 'msg': c['msg'], 'meta': c.get('meta')},
-                                              'impl': self.obs(io), 'model': self.obs(mo), 'explained': bool(what)})
+                                              'impl': self.obs_case(c, io), 'model': self.obs_case(c, mo), 'explained': bool(what)})
         return disagreements, violations, {'n': n, 'sigs': sigs, 'dist': dist, 'samples': samples}
 
     def run(self, tier, rng, log):
@@ -181,7 +184,7 @@ class AddCheck:
         if not case:
             return {'violation': False, 'note': 'replay file names a broken theorem or build, not an input: ' + str(rep.get('detail'))}
         what, io, mo = self.case_violation(case)
-        return {'violation': bool(what), 'what': what, 'impl': self.obs(io), 'model': self.obs(mo)}
+        return {'violation': bool(what), 'what': what, 'impl': self.obs_case(case, io), 'model': self.obs_case(case, mo)}
 
     def shrink(self, v):
         case = dict(v['case'])
@@ -203,7 +206,7 @@ class AddCheck:
                         continue
                     if what:
                         case = c2
-                        v = {'what': what, 'case': case, 'impl': self.obs(io), 'expected': self.obs(mo)}
+                        v = {'what': what, 'case': case, 'impl': self.obs_case(case, io), 'expected': self.obs_case(case, mo)}
                         changed = True
                         break
                 if changed:
